@@ -3,10 +3,10 @@ import json, os
 VERIF = os.path.dirname(os.path.dirname(os.path.abspath(__file__)))
 
 T = {
-    "C01": ("explicit-state", "exhaustive write/end-chunk histories x configurations x read schedules on the real writer and reader, reference decoder as oracle",
+    "C01": ("explicit-state", "exhaustive write/end-chunk histories x configurations (incl. chunk sizes, stored sizes and chunk counts on every 7-bit boundary of the integer encoding) x read schedules on the real writer and reader, read back through a descriptor opened between close and free, reference decoder as oracle",
             "Every write history over a tiny alphabet up to a stated depth, every configuration of the tiny universe, medium contents under every listed segmentation, and the zck/unzck tools in-process (split strings at every offset around block edges, option combinations incl. -o/-v/-c, every subset of descriptors 0-2 closed), each checked against an independent spec-derived decoder; termination by per-execution alarm.",
             "Contents outside the block/medium alphabets, histories deeper than the bound and zstd's own behaviour on other data are not covered; the reference decoder (mc/zckref.py, hashlib, libzstd via ctypes) is trusted."),
-    "C02": ("explicit-state", "exhaustive raw and re-sealed structural mutation of small valid files (incl. every mix of the two identifiers, and the detached-header identifier on every structural mutant), every truncation, read schedules; implication checked on every mutant",
+    "C02": ("explicit-state", "exhaustive raw and re-sealed structural mutation of small valid files (incl. every mix of the two identifiers, the detached-header identifier on every structural mutant, digest twins and chunk swaps whose digests share a leading 0x00), every truncation, read schedules; implication checked on every mutant",
             "All single-bit flips, all 255 substitutions of body bytes, every truncation/extension/indel and every listed re-sealed structural mutant of each base file are read through the real reader; success implies the content equals the base content or the reference decoding of the mutant.",
             "Base files are those of the tiny universe plus one medium file; at most two simultaneous structural deviations; the reference decoder is trusted."),
     "C03": ("deviation-bounded", "deviation-bounded structure-aware enumeration of correctly sealed headers (1-2 deviating fields), checksum-correct payload mutants, truncations and short files x API call sequences (all singles, all ordered pairs on files that open) and tools under ASan/UBSan with alarms",
@@ -15,10 +15,10 @@ T = {
     "C04": ("explicit-state", "exhaustive enumeration of (old file incl. damaged ones, new file, range limit, initial target) over the word universe driving the documented update loop against a reference range server (a new multipart boundary per response), long words that need several multi-range requests, and a connection dropped after every number of body bytes of the first chunk response followed by another round on the same zckDL; thorough: the real zckdl main against a loopback HTTP range server",
             "All pairs of words up to length 3 (plus no source), compression/dictionary variants, range limits and initial target states run the documented procedure over the public API with a reference server; final bytes and the exact multiset of requested ranges are compared with set arithmetic on the reference chunk table.",
             "Words over a small block alphabet; the in-process reference server (drv/scen_update.c) and the loopback server (mc/httpd.py) are trusted; the real zckdl main is exercised only in the thorough tier."),
-    "C05": ("schedule-bounded", "exhaustive enumeration of all 1-cut and 2-cut partitions of well-formed range responses into callback invocations, all missing-chunk subsets, boundary/header spellings, per-chunk corruptions",
+    "C05": ("schedule-bounded", "exhaustive enumeration of all 1-cut and 2-cut partitions of well-formed range responses into callback invocations, all missing-chunk subsets, boundary/header spellings (every RFC 2046 boundary character at start/middle/end), per-chunk corruptions incl. digest twins",
             "Every partition with <= 2 cuts (plus all-1-byte and k-byte pieces) of every response format for every non-empty set of missing chunks is fed to the real callbacks; final file bytes, per-chunk flags and return values must equal the reference reassembler's, and nothing outside the requested extents may change.",
             "Responses of 300-600 bytes, parts in request order, at most two cuts exhaustively."),
-    "C06": ("explicit-state", "exhaustive single-byte substitution (all 255 values at every header position), indels with adjusted size field, wrong-recipe digests, and every substitute again under every single allocation failure of the open (allocator seam); open verdict on the real reader",
+    "C06": ("explicit-state", "exhaustive single-byte substitution (all 255 values at every header position), indels with adjusted size field, wrong-recipe digests, bases whose header digest contains 0x00 at byte 0/1/2, and every substitute again under every single allocation failure of the open (allocator seam; plain open, and advanced interface with the failed step retried after zck_clear_error); open verdict on the real reader",
             "For every base file every header position takes every other byte value; every mutant must fail to open in both open paths, and every unmutated reference- or library-written file must open.",
             "Single-byte edits (plus indels and wrong-recipe digests) of the listed base files; hash collisions are not considered; under an allocation failure only 'does not open' is demanded."),
     "C07": ("explicit-state", "exhaustive enumeration of pinned (type, digest string, length) combinations, every byte value at every digest-string position, digests differing in several bytes at once (xor/sum-preserving pairs, swaps, rotations), setter orders, options set twice, lead validation repetitions, against a three-line reference model",
@@ -36,10 +36,10 @@ T = {
     "C11": ("crash-point exhaustive", "explicit-state BFS over target-file states reached by killing the update at every write/ftruncate and at every byte count inside each write, resumed with fresh contexts",
             "Every kill point (every system call, every byte offset) of each update scenario is executed via the link-time seam; every reached on-disk state is resumed to completion and, to depth 2 for selected scenarios, killed again.",
             "Process kill, not power loss; scenarios are the listed small pairs."),
-    "C12": ("deviation-bounded", "deviation-bounded exploration of environment answers: every single fault (EIO/ENOSPC/EINTR/short count) at every read/write/lseek of each scenario, all pairs for short scenarios",
+    "C12": ("deviation-bounded", "deviation-bounded exploration of environment answers: every single fault (EIO/ENOSPC/EINTR/short count) at every read/write/lseek of each scenario (writer, reader, validations, chunk requests, copy, update, tools), all pairs for short scenarios",
             "A fault-free run records N environment calls; then every call x every alternative answer is executed (all pairs thorough) through the link-time seam, and a reported success is compared with what really reached the descriptors.",
             "Faults limited to the listed errno values and short counts; at most two faults per execution."),
-    "C13": ("explicit-state", "exhaustive enumeration of headers the reference writer can emit within the stated field domains (incl. running sums placed on every 2^63 / 2^64 limit) and their re-sealed field mutations, getter dump compared with the reference parser",
+    "C13": ("explicit-state", "exhaustive enumeration of headers the reference writer can emit within the stated field domains (incl. running sums placed on every 2^63 / 2^64 limit) and their re-sealed field mutations, getter dump compared with the reference parser; the open repeated under every single allocation failure (allocator seam) must refuse or report the same",
             "Every header in the stated product of digests, flags, optional elements and boundary sizes, plus re-sealed count/width/overflow mutations, is opened by the real reader; on success every getter and the chunk iteration must equal the reference parser, and malformed headers must be refused.",
             "Field values from the listed boundary sets; up to 4 chunks."),
     "C14": ("explicit-state", "exhaustive enumeration of all chunk-request sequences up to length 4 (5 thorough) over every chunk incl. dictionary and last, and of sequences over the alphabet extended by history operations on the same context (sequential reads, scans, half-buffer requests); state = history replayed on a fresh context",
@@ -51,13 +51,13 @@ T = {
     "C16": ("explicit-state", "exhaustive 1-cut and boundary-neighbourhood 2-cut write segmentations, edits at every boundary neighbourhood, rolling-hash hit windows placed at every offset around the effective minimum and maximum; byte-identity, chunk-locality and size-bound oracle",
             "The same content delivered whole, with every single cut position, every cut pair near chunk boundaries and the k-byte schedules must give byte-identical files; edits at every listed position must leave chunks before and after the edit region identical.",
             "Contents of the medium generator families; rolling-hash behaviour on other data not covered."),
-    "C17": ("deviation-bounded", "deviation-bounded enumeration of malformed header lines and response bodies (<=2 deviations from well-formed, every truncation, all byte strings of length <=2) x fragmentations under ASan/UBSan",
+    "C17": ("deviation-bounded", "deviation-bounded enumeration of malformed header lines (incl. a grammar product of the boundary parameter) and response bodies (<=2 deviations from well-formed, every truncation, all byte strings of length <=2) x fragmentations under ASan/UBSan",
             "Every listed header line, every body within two deviations of a well-formed response, every truncation and fragmentation is fed to the real callbacks in forked children under sanitizers; confinement and verified-validity are checked on the target afterwards.",
             "The deviation menu is finite; sanitizer-visible undefined behaviour only."),
     "C18": ("explicit-state", "exhaustive message lengths 0..300 (600 thorough) x every split point (all split pairs at padding edges) x content families on both hash backends, three-way comparison with CPython's built-in SHA",
             "Both builds are compiled from the tree; every length, split and family is hashed by each and compared with an independent implementation; files written by each build are compared byte for byte and cross-read.",
             "Lengths up to 300 (600) plus one 2^29-byte message."),
-    "C19": ("schedule-bounded", "stateless exploration of all thread schedules with <=2 preemptions (thorough: 4 for pairs, 2 for triples) at system-call granularity under a cooperative scheduler, one fresh process per schedule, plus a free-running ThreadSanitizer pass of the same bodies",
+    "C19": ("schedule-bounded", "stateless exploration of all thread schedules with <=2 preemptions (thorough: 4 for pairs, 2 for triples) at system-call granularity under a cooperative scheduler, one fresh process per schedule, plus a free-running ThreadSanitizer pass of the same bodies for both checksum backends",
             "All schedules within the preemption bound of every pair of ten scenarios (copy, write, read, validate, plain and multipart download callbacks, whole life of a reading and of a writing context, name/range/error/matching calls, a context switched to ZCK_NO_WRITE) are executed on the real code with the scheduler deciding at every wrapped system call; each thread's results must equal its serial baseline; a separate TSan build reports unsynchronised accesses.",
             "Interleavings only at system-call granularity in pass 1; finer races rely on TSan's happens-before analysis."),
     "C20": ("explicit-state", "exhaustive enumeration of every value below 2^21 (round trip) and every byte string of length <=3 plus long strings with the last three positions enumerated, flush against a guard page, and cursors already past the end of the buffer, against exact integer arithmetic",
